@@ -55,6 +55,7 @@ type Plan struct {
 	Twin       bool        `json:"twin,omitempty"`     // also run the unaffected scripts without a deadline and compare
 	Parallel   int         `json:"parallel,omitempty"` // how many subtests the T lets run at once (go test -parallel); 0 = all
 	Keep       string      `json:"keep,omitempty"`     // work directories are retained: testwork | workdirroot
+	Beside     bool        `json:"beside,omitempty"`   // another RunT call (one 7 ms script) runs beside this one in the same process, with the same Deadline value
 	PriorMs    int64       `json:"prior_ms,omitempty"` // an earlier RunT call in the same process (one short script) with this deadline distance; -1: without deadline; 0: none
 	Sched      simrt.Sched `json:"sched"`
 }
@@ -126,6 +127,7 @@ func genPlan(t *rapid.T, tier string) any {
 	if rapid.IntRange(0, 4).Draw(t, "keepwork") == 0 {
 		p.Keep = rapid.SampledFrom([]string{"testwork", "workdirroot"}).Draw(t, "keep")
 	}
+	p.Beside = rapid.IntRange(0, 5).Draw(t, "beside") == 0
 	if rapid.IntRange(0, 2).Draw(t, "prior") == 0 {
 		p.PriorMs = rapid.SampledFrom([]int64{-1, 300, 2000, 40000, 600000}).Draw(t, "priordeadline")
 	}
@@ -139,6 +141,7 @@ type probeRec struct {
 	at     time.Duration
 }
 
+var tmpRootNo = regexp.MustCompile(`go-test-script\d+`)
 var timing = regexp.MustCompile(`\(\d+\.\d+s\)`)
 
 // scriptText renders script i. interruptAt is the fake instant (since the run's
@@ -235,6 +238,7 @@ type runResult struct {
 	procs  []*simexec.Proc
 	probes []probeRec
 	fatal  string
+	besideFailed bool
 	rep    *simrt.Report
 	end    time.Duration
 }
@@ -273,6 +277,24 @@ func execute(t *testing.T, p *Plan, files []string, deadline time.Duration, keep
 			params.WorkdirRoot = filepath.Join(gotmp, "kept")
 			os.MkdirAll(params.WorkdirRoot, 0o777)
 		}
+		besideDone := true
+		if p.Beside && deadline > 0 && filepath.Base(gotmp) == "tmp" {
+			// two test functions of one binary running in parallel get the same deadline from the testing package
+			besideDone = false
+			bf := filepath.Join(filepath.Dir(gotmp), "zbeside.txt")
+			os.WriteFile(bf, []byte("exec stub run=7ms\n"), 0o666)
+			s.Go("beside", 0, func() {
+				defer func() { besideDone = true }()
+				root2 := tskit.NewRoot(s, epoch, false)
+				testscript.RunT(root2, testscript.Params{Files: []string{bf}, Deadline: params.Deadline})
+				root2.Release()
+				for _, sub := range root2.Subs {
+					if sub.Failed {
+						res.besideFailed = true
+					}
+				}
+			})
+		}
 		func() {
 			defer func() {
 				// a Fatal on the root T ends RunT with Goexit in real life; here it returns
@@ -280,12 +302,17 @@ func execute(t *testing.T, p *Plan, files []string, deadline time.Duration, keep
 			}()
 			testscript.RunT(root, params)
 		}()
+		simrt.Block("beside.join", func() bool { return besideDone })
 		root.Release()
 		res.subs = root.Subs
 		res.fatal = root.Fatal_
 		res.end = time.Since(epoch)
 	})
-	res.procs = simexec.Procs()
+	for _, pr := range simexec.Procs() {
+		if scriptOf(pr) != "zbeside" {
+			res.procs = append(res.procs, pr)
+		}
+	}
 	return res
 }
 
@@ -580,6 +607,8 @@ func run(t *testing.T, plan any, keep bool) *simcheck.Outcome {
 				// with retained work directories the log names them, and the two runs use different temporary roots
 				la = strings.ReplaceAll(la, filepath.Join(dir, "tmp")+string(os.PathSeparator), "<tmp>/")
 				lb = strings.ReplaceAll(lb, filepath.Join(dir, "tmp2")+string(os.PathSeparator), "<tmp>/")
+				// (another RunT call running beside this one takes a temporary-root number of its own)
+				la, lb = tmpRootNo.ReplaceAllString(la, "go-test-scriptN"), tmpRootNo.ReplaceAllString(lb, "go-test-scriptN")
 				if a.Failed != b.Failed || a.Skipped != b.Skipped || la != lb {
 					out.Violate("affected-by-deadline", "script s%d finished before the deadline machinery fired, yet with a deadline: failed=%v skipped=%v, without: failed=%v skipped=%v; logs:\n--- with deadline\n%s\n--- without\n%s", i, a.Failed, a.Skipped, b.Failed, b.Skipped, la, lb)
 				}
@@ -609,7 +638,7 @@ var harness = &simcheck.Harness{
 	Level:    "exploration",
 	Rule: "rapid draws a deadline distance (300 ms ... 10 min, or none), 1-3 scripts (quick commands, optional background process (exits on the deadline's interrupt; reacts to the clean-up's SIGINT promptly, after 3s / 40s, or never), one main foreground command that exits early, " +
 		"exits at the interrupt instant +-{1ns,1us,1ms,30ms}, or never, optionally with a descendant that holds its output pipes 0.5-40 ms longer; optionally printing 1.1 MB first, writing to stderr every 20 ms, or with 200 KB of standard input pending; optionally a first line that tries a program file still open for writing; reaction to SIGQUIT: default, ignore, exit after a delay below / around / above the grace period; optional '!' prefix; lines after it), " +
-		"verbosity, work-directory retention (none / TestWork / WorkdirRoot), the number of subtests the T lets run at once (all, 1 or 2), whether a no-deadline twin run is compared, optionally an earlier RunT call in the same process with another deadline distance, and a schedule; non-trivial = a foreground command was interrupted or several scripts ran; distinct by decision-trace hash",
+		"verbosity, work-directory retention (none / TestWork / WorkdirRoot), the number of subtests the T lets run at once (all, 1 or 2), whether a no-deadline twin run is compared, optionally another RunT call with the same Deadline value running beside this one, optionally an earlier RunT call in the same process with another deadline distance, and a schedule; non-trivial = a foreground command was interrupted or several scripts ran; distinct by decision-trace hash",
 	Gen:     genPlan,
 	NewPlan: func() any { return &Plan{} },
 	Run:     run,
